@@ -632,12 +632,22 @@ func TestVerifC23Split(t *testing.T) {
 		var lay *vc23Layout
 		var err error
 		shape := rapid.IntRange(0, 5).Draw(t, "shape")
-		if limit < 1<<10 && shape <= 1 && n > limit {
-			shape = 2 // the SDK slicer cannot store its link object under a tiny limit
+		uniform := func() []int {
+			var sizes []int
+			for left := n; left > 0; left -= min(left, limit) {
+				sizes = append(sizes, min(left, limit))
+			}
+			return sizes
 		}
 		switch {
-		case shape <= 1 || n <= 1: // SDK slicer: V2 uniform or whole
+		case n <= 1:
 			lay, err = vc23Slice(payload, uint64(limit), nAttr)
+		case shape <= 1: // V2 uniform or whole: SDK slicer unless its link object would not fit the limit
+			if n > limit && (n/limit+2)*48 > limit {
+				lay, err = vc23Handmade(2, payload, uniform(), nAttr)
+			} else {
+				lay, err = vc23Slice(payload, uint64(limit), nAttr)
+			}
 		case shape == 2: // V2, client-side chunking
 			sizes := vc23Sizes(t, n, limit)
 			if len(sizes) < 2 {
@@ -647,9 +657,7 @@ func TestVerifC23Split(t *testing.T) {
 		default: // V1
 			var sizes []int
 			if rapid.Bool().Draw(t, "v1Uniform") {
-				for left := n; left > 0; left -= min(left, limit) {
-					sizes = append(sizes, min(left, limit))
-				}
+				sizes = uniform()
 			} else {
 				sizes = vc23Sizes(t, n, limit)
 			}
@@ -1100,6 +1108,39 @@ func TestVerifC23EC(t *testing.T) {
 }
 
 func vc23KnownClassEC(rules []iec.Rule, missing []string, q vc23Query, err error) string {
+	miss := map[string]bool{}
+	for _, m := range missing {
+		miss[m] = true
+	}
+	allDataMissing := false // in some rule
+	for ri, r := range rules {
+		all := true
+		for pi := 0; pi < int(r.DataPartNum); pi++ {
+			all = all && miss[fmt.Sprintf("%d/%d", ri, pi)]
+		}
+		allDataMissing = allDataMissing || all
+	}
+	// every rule either lost its part #0 or is beyond repair
+	noRuleWithPart0 := true
+	for ri, r := range rules {
+		lost := 0
+		for pi := 0; pi < int(r.DataPartNum+r.ParityPartNum); pi++ {
+			if miss[fmt.Sprintf("%d/%d", ri, pi)] {
+				lost++
+			}
+		}
+		if lost <= int(r.ParityPartNum) && !miss[fmt.Sprintf("%d/0", ri)] {
+			noRuleWithPart0 = false
+		}
+	}
+	switch {
+	case q.Mode != common.PayloadRangeModeNone && noRuleWithPart0 && err != nil && strings.Contains(err.Error(), "resolve parent payload length"):
+		// copyECObjectRangeByRule learns the parent payload length from part #0 only
+		return "C23:ec-range-part0-missing"
+	case q.Mode == common.PayloadRangeModeNone && allDataMissing:
+		// restoreFromECPartsByRule takes the parent header from data parts only
+		return "C23:ec-get-all-data-parts-missing"
+	}
 	return ""
 }
 
